@@ -211,7 +211,8 @@ pub fn gen_c20(tier: &str, seed: u64, out: &mut Vec<String>) {
         let plen = 2 + rng.below(12) as usize;
         let prog = random_program(&mut rng, plen, true);
         let (code, _) = assemble(&prog, CODE);
-        emit_new(&mut raw, &code, CODE);
+        raw.push(format!("newraw {} {:x} {:x}", hex(&code), CODE, CODE));
+        dec_all(&code, CODE, &mut raw);
         raw.push("stack 200".into());
         for r in ["RAX", "RCX", "RDX", "RBX"] {
             raw.push(format!("rw 64 {} {:x}", r, rng.val()));
@@ -235,8 +236,27 @@ pub fn gen_c20(tier: &str, seed: u64, out: &mut Vec<String>) {
         raw.push("callstack".into());
         raw.push("render".into());
     }
+    // loaded ELF images: symbol resolution (aliases at one address), image, trace rendering
+    let e = if tier == "thorough" { 600 } else { 60 };
+    for _ in 0..e {
+        let mut spec = crate::gen_elf::well_formed(&mut rng);
+        // make aliases likely: several names for the entry point and for a few other addresses
+        if let Some(syms) = spec.syms.as_mut() {
+            let mut extra = vec![];
+            for k in 0..3 + rng.below(4) {
+                let value = if k < 2 || syms.is_empty() { spec.entry } else { rng.pick(syms).value };
+                extra.push(crate::gen_elf::Sym { value, name: format!("alias{}_{:x}", k, rng.below(0x1000)), shndx: 1, info: 0x12 });
+            }
+            syms.extend(extra);
+        }
+        let (bytes, _) = crate::gen_elf::build(&mut spec);
+        raw.push("new".into());
+        raw.push(format!("elfload {}", hex(&bytes)));
+        crate::gen_elf::observe_plain(&spec, &mut rng, &mut raw);
+        raw.push("render".into());
+    }
     for l in raw {
-        let is_new = l.starts_with("new ") || l == "new";
+        let is_new = l.starts_with("new ") || l == "new" || l.starts_with("newraw ");
         out.push(l);
         if is_new {
             out.push("errtext on".into());
